@@ -612,6 +612,10 @@ impl Drop for DestinationGuard {
 
 #[cfg(unix)]
 fn sync_parent_directory(path: &Path) -> io::Result<()> {
+    #[cfg(feoxdb_verif)]
+    if crate::verif::fail_at("migrate.dir_sync") {
+        return Err(io::Error::other("injected directory sync failure"));
+    }
     let parent = path
         .parent()
         .filter(|parent| !parent.as_os_str().is_empty());
